@@ -57,7 +57,7 @@ GATES = {
     "out-tampers": ["tamper:" + t for t in TAMPERS_OUT],
     "in-tampers": ["tamper:" + t for t in TAMPERS_IN],
     "tamper-raised": ["tamper-outcome:raised"],
-    "input-shapes": ["inputs:two-outputs-of-one-prev-tx"],
+    "input-shapes": ["inputs:two-outputs-of-one-prev-tx", "account-path:ends-unhardened"],
 }
 
 
@@ -481,15 +481,20 @@ def tampers(ctx, rng, raw, signed_raw, wallet, truth, change_pos, paths=None, pr
     # every derivation record (inputs and change) states another account prefix than the global xpub records do - same
     # depth, same tail: the keys are NOT at the stated paths (the xpubs' own records say where they sit)
     nacc = len(truth.account_path)
-    fake_prefix = b"".join(((2**31) + x).to_bytes(4, "little") for x in (99, 7, 7, 7, 7, 7)[:nacc])
+    # second variant: only the LAST account component differs, and its decimal text starts with the real one's (1 -> 17,
+    # 2' -> 27'): a comparison of path strings without component boundaries takes it for a descendant
+    last = truth.account_path[-1]
+    sibling = (int(str(last % 2**31) + "7") % 2**31) + (2**31 if last >= 2**31 else 0)
+    prefixes = [b"".join(((2**31) + x).to_bytes(4, "little") for x in (99, 7, 7, 7, 7, 7)[:nacc]),
+                b"".join(x.to_bytes(4, "little") for x in truth.account_path[:-1] + [sibling])]
+    for fake_prefix in prefixes:
+        def reprefix(entries, tag, fake_prefix=fake_prefix):
+            return [((k, v[:4] + fake_prefix + v[4 + 4 * nacc:]) if k[:1] == tag and len(v) >= 4 + 4 * nacc else (k, v)) for k, v in entries]
 
-    def reprefix(entries, tag):
-        return [((k, v[:4] + fake_prefix + v[4 + 4 * nacc:]) if k[:1] == tag and len(v) >= 4 + 4 * nacc else (k, v)) for k, v in entries]
-
-    mm = with_tx(maps, model)
-    mm["ins"] = [reprefix(x, b"\x06") for x in mm["ins"]]
-    mm["outs"] = [reprefix(x, b"\x02") for x in mm["outs"]]
-    yield "derivations-under-another-account-prefix", "must-raise", rp.encode(mm)
+        mm = with_tx(maps, model)
+        mm["ins"] = [reprefix(x, b"\x06") for x in mm["ins"]]
+        mm["outs"] = [reprefix(x, b"\x02") for x in mm["outs"]]
+        yield "derivations-under-another-account-prefix", "must-raise", rp.encode(mm)
     # one global xpub replaced by an attacker key (fingerprint/path kept)
     mm = with_tx(maps, model)
     gx = [j for j, (k, _) in enumerate(mm["global"]) if k[:1] == b"\x01"]
@@ -528,7 +533,11 @@ def one_scenario(ctx, rng, kind, m, n, network, n_in, layout, quick, shared_prev
     from buidl.hd import HDPublicKey
     from props.psbtlib import Scenario, Wallet, reparse
 
-    wallet = Wallet(rng, kind, m, n, network)
+    # BIP45-style account paths end in an UNHARDENED component (m/45'/1): used for every third scenario
+    acct = "m/45'/1" if ctx.classes.get("layout:" + layout, 0) % 3 == 1 or ctx.desc.get("idx", 0) % 3 == 2 else None
+    if acct:
+        ctx.count("account-path:ends-unhardened")
+    wallet = Wallet(rng, kind, m, n, network, account_path=acct)
     truth = Truth(wallet)
     n_spend = {"with-change": 1, "sweep": 1, "batch": rng.choice([2, 3])}[layout]
     with_change = layout != "sweep"
